@@ -38,10 +38,10 @@ CHECKS['C16'] = (
     'exhaustive enumeration of all (length, chunk, overlap), (length, n_excerpts, size), file-size lists '
     'x chunk lengths and compressed-reader configurations up to bounds (space mode) with tiling '
     'invariants checked on every one',
-    'Bounded exhaustive exploration: chunk_bounds for every n <= 40 (120), chunk <= 12 (24), overlap < '
+    'Bounded exhaustive exploration: chunk_bounds for every n <= 120 (300), chunk <= 24 (40), overlap < '
     'chunk; excerpts/get_excerpts for every n, n_excerpts <= 6, size <= 6; _get_chunk_bounds and real '
-    'FlatEphysReader objects on real files for every list of 1-3 file sizes <= 6 (8) x chunk length <= 8 '
-    '(10); real .cbin readers for n <= 8 x chunk x threads x cache. Invariants: kept parts concatenate '
+    'FlatEphysReader objects on real files for every list of 1-3 file sizes <= 8 (10) and 4 sizes <= 4 (5) x chunk length <= 10 '
+    '(12); real .cbin readers for n <= 10 (14) x chunk x threads x cache. Invariants: kept parts concatenate '
     'to the data, bounds strictly increase 0..n, contain file boundaries, gaps <= chunk, iterator '
     'intervals tile the recording.',
     'mtscomp creates the compressed inputs and is trusted; lengths beyond the bounds are not covered.',
@@ -168,10 +168,10 @@ CHECKS['C05'] = (
     'x threshold x unwhiten x explicit lists, and of sparse column-table rows (space mode), every '
     'returned record checked clause by clause against the stored arrays',
     'Bounded exhaustive exploration: templates carrying every permutation of distinct amplitude levels '
-    'over 4 channels (24) and 6 channels (120 quick / 720 thorough, single- and two-shank), a rotating '
+    'over 4 channels (24) and 6 channels (all 720, single- and two-shank), a rotating '
     'family on a 14-channel probe, plus tie profiles; x whitening absent/identity/mixing x '
-    'n_closest_channels 12/2/3 x threshold None/0/0.5/1 x unwhiten x explicit channel lists (7.1e4 '
-    'get_template calls quick); sparse storage: every ordered row of 3 stored columns over 5 channels '
+    'n_closest_channels 12/2/3 x threshold None/0/0.5/1 x unwhiten x explicit channel lists (3.5e5 '
+    'get_template calls); sparse storage: every ordered row of 3 stored columns over 5 channels '
     'with 0-2 entries -1 (some holding garbage) and an optional all-zero column. Clauses: distinct '
     'channels, peak first, non-increasing amplitude, column j == template on channel j, amplitude j == '
     'ptp of column j, exact channel set; accessors agree with the record.',
@@ -225,7 +225,7 @@ CHECKS['C09'] = (
 CHECKS['C11'] = (
     'exhaustive enumeration of probe tuples (space mode): every k-tuple over a family of generated '
     'probe directories, merged by the real Merger and compared with an independent stable merge',
-    'Bounded exhaustive exploration: every 1-, 2- and 3-tuple (4 thorough) over 6-7 probe records '
+    'Bounded exhaustive exploration: every 1- to 4-tuple (5 thorough, on a reduced family) over 6-7 probe records '
     '(2-3 spikes on times {0,1,2} with ties inside and across probes, gapped template ids, curated '
     'clusters with higher maxima, per-cluster TSVs in all/some/none) x id dtypes int32/uint32/int64, '
     'plus a long-tie family (2 x 40 spikes on <= 3 times) where an unstable sort is observable. '
@@ -238,7 +238,7 @@ CHECKS['C12'] = (
     'exhaustive enumeration of probe tuples (space mode) over a family with different channel / '
     'template counts, maps, geometries, index dtypes and optional matrices; block-by-block comparison '
     'of the merged files with the inputs',
-    'Bounded exhaustive exploration: every 1-, 2- and 3-tuple (4 thorough) over 7 probe kinds (2-4 '
+    'Bounded exhaustive exploration: every 1- to 4-tuple (5 thorough, on a reduced family) over 7 probe kinds (2-4 '
     'channels, 2-3 templates, identity / permuted / sub-selected maps, two-column and single-column '
     'geometries, int32 / uint32 index tables, matrices present or absent, a probe whose highest '
     'template is unused): channel blocks and probe labels, x-translation with disjoint x-ranges, '
